@@ -453,9 +453,41 @@ def process_hdc(ck, case):
         ck.diverge("hdc-pipeline:" + case["mode"], case, d)
 
 
+def process_reshape(ck, rng, n_cases):
+    """(D) numpy's reshape + broadcasting of a (len(cond), len(dist)) matrix into the n-D grid vs the model's
+    C-order offset `flatUpTo`: which matrix entry does cell I read?"""
+    lines, meta = [], []
+    for _ in range(n_cases):
+        n = int(rng.integers(2, 6))
+        a, b = sorted(rng.choice(n, 2, replace=False).tolist())
+        if rng.integers(0, 3) == 0:
+            a, b = b, a  # conditioning axis after the distribution axis (non-hierarchical placement)
+        la, lb = int(rng.integers(2, 7)), int(rng.integers(2, 7))
+        shape = [1] * n
+        shape[a], shape[b] = la, lb
+        full = [int(rng.integers(2, 5)) for _ in range(n)]
+        full[a], full[b] = la, lb
+        I = [int(rng.integers(0, full[k])) for k in range(n)]
+        # the code: fbar (la x lb, first index = conditioning value) .reshape(shape), then broadcast in the product
+        M = np.arange(la * lb).reshape(la, lb)
+        got = int(np.broadcast_to(M.reshape(shape), full)[tuple(I)])
+        lines.append(" ".join(["RUN", "flat", str(n), str(a), str(la), str(b), str(lb)] + [str(v) for v in I]))
+        meta.append({"part": "D", "n": n, "cond_axis": a, "len_cond": la, "dist_axis": b, "len_dist": lb, "index": I, "offset": got})
+    for case, ans in zip(meta, ck.driver.run(lines)):
+        ck.case(case, nontrivial=True, sample=False)
+        ck.count("part=D")
+        ck.count("D_cond_axis_first" if case["cond_axis"] < case["dist_axis"] else "D_cond_axis_later")
+        t = ans.split()
+        if t[0] != "OK" or int(t[1]) != case["offset"]:
+            ck.diverge("reshape-broadcast-offset", case, f"numpy reads flat entry {case['offset']}, model {ans}")
+        if case["cond_axis"] < case["dist_axis"] and case["offset"] != case["index"][case["cond_axis"]] * case["len_dist"] + case["index"][case["dist_axis"]]:
+            ck.fail({"entry": "numpy.reshape", "predicate": "conditional_matrix_on_right_axes"}, case, "hierarchical placement reads the wrong entry")
+
+
 def main(ck):
     rng = np.random.default_rng(ck.seed)
     thorough = ck.tier == "thorough"
+    process_reshape(ck, rng, 3000 if thorough else 400)
     ck.rule = ("(A) random arrays 1-D..3-D (ties, zeros, tiny values; limits equal to / one ulp above / far above the total, "
                "below the largest value) through cumsum_biggest_until; (C) HighestDensityContour on random 2-D/3-D "
                "hierarchical models (rational doubles and shipped families), alpha in [1e-6,0.3], explicit limits, scalar "
